@@ -39,6 +39,43 @@ fn round_trip(wire: &[u8]) -> Result<Option<Vec<u8>>, PanicInfo> {
     })
 }
 
+fn check_record_path(ctx: &mut Ctx, s: &[u8], zone: &Option<Name>, want_text: &[u8], desc: &str) {
+    // only without a default zone (RR::new takes none), and only for names whose labels hold no dot-escape
+    if zone.is_some() || s.is_empty() || s == b"." {
+        return;
+    }
+    match round_trip_via_record(s) {
+        Err(p) => ctx.violation("C14", format!("record-from-text|{}", p.class()), format!("{}: {}", desc, p.msg), s),
+        Ok(None) => ctx.count("record_from_text_refused"),
+        Ok(Some(text)) => {
+            ctx.count("round_trips_via_record");
+            if text != want_text {
+                ctx.violation(
+                    "C14",
+                    "read-back-differs|record-from-text".into(),
+                    format!("{}: a record built from the text reads back as {:?} want {:?}", desc, String::from_utf8_lossy(&text), String::from_utf8_lossy(want_text)),
+                    s,
+                );
+            }
+        }
+    }
+}
+
+/// Another way to give a record the name: build the record from the TEXT (`RR::new`, no character policy beyond
+/// the conversion's own) and insert it into an empty response; read the owner back through the iterator.
+fn round_trip_via_record(text: &[u8]) -> Result<Option<Vec<u8>>, PanicInfo> {
+    let t = text.to_vec();
+    guarded(runaway_budget(t.len() + 512) * 8, move || {
+        let hdr = dnssector::synth::r#gen::RRHeader { name: t, ttl: 60, class: Class::IN, rr_type: Type::A };
+        let rr = dnssector::synth::r#gen::RR::new(hdr, &[192, 0, 2, 1]).ok()?;
+        let mut pp = ParsedPacket::empty();
+        pp.set_response(true);
+        pp.insert_rr(Section::Answer, rr).ok()?;
+        let it = pp.into_iter_answer()?;
+        Some(it.name())
+    })
+}
+
 pub fn one(ctx: &mut Ctx, s: &[u8], zone: &Option<Name>, family: &str) {
     ctx.evaluations += 1;
     let nr = ref_text_name(s, zone.as_ref());
@@ -95,7 +132,12 @@ pub fn one(ctx: &mut Ctx, s: &[u8], zone: &Option<Name>, family: &str) {
     // read back through a record
     match round_trip(&wire) {
         Err(p) => ctx.violation("C14", format!("set_raw_name|{}", p.class()), format!("{}: {}", desc(), p.msg), s),
-        Ok(None) => ctx.count("set_raw_name_refused"),
+        Ok(None) => {
+            ctx.count("set_raw_name_refused");
+            let mut want_text: Vec<u8> = if nr.absolute { s[..s.len() - 1].to_vec() } else { s.to_vec() };
+            want_text.make_ascii_lowercase();
+            check_record_path(ctx, s, zone, &want_text, &desc());
+        }
         Ok(Some(text)) => {
             ctx.count("round_trips");
             // lowercased input without its trailing dot (followed by the zone when one was appended)
@@ -109,6 +151,7 @@ pub fn one(ctx: &mut Ctx, s: &[u8], zone: &Option<Name>, family: &str) {
                 }
             }
             want_text.make_ascii_lowercase();
+            check_record_path(ctx, s, zone, &want_text, &desc());
             if text != want_text {
                 ctx.violation(
                     "C14",
@@ -202,7 +245,12 @@ pub fn run(ctx: &mut Ctx) {
                 if rng.chance(1, 3) {
                     v.extend_from_slice(b"www.");
                 }
-                v.extend((0..l).map(|_| *rng.pick(b"abcxyz019")));
+                // (now and then everything from the 62nd byte on is a byte that is accepted but is no host-name
+                // character: the label limit does not depend on what the bytes are)
+                let odd = rng.chance(1, 3);
+                let l = if odd && rng.chance(1, 2) { rng.range(63, 70) } else { l };
+                let tail: &[u8] = if odd { b"*@!+=~" } else { b"abcxyz019" };
+                v.extend((0..l).map(|i| if i >= 61 { *rng.pick(tail) } else { *rng.pick(b"abcxyz019") }));
                 if rng.chance(1, 2) {
                     v.extend_from_slice(b".example");
                 }
